@@ -320,7 +320,7 @@ func randomReq(r *rand.Rand, protocol, codec string, kind svc.Kind) *hostileReq 
 }
 
 func c07(run *ev.Run) int {
-	run.SetRule("cases = crafted (method, HTTP version, headers, body) from three generators - grammar-based hostile requests (unknown/odd encodings, malformed timeouts, flags, lying lengths, truncated/undecodable/oversize/bomb payloads), mutations of recorded valid requests (bit flips, truncation, dropped headers, method/version/content-type changes), random bytes - x 3 protocols x 2 codecs x 4 kinds x 2 handler configurations; oracle: no panic, returns, response well-formed per reference decoder (or bare 405/415/505), user code <= 1x, received messages a prefix of the reference-decoded valid prefix, documented error classes never answered with success; distinct by (generator class, config, kind, outcome class)")
+	run.SetRule("cases = crafted (method, HTTP version, headers, body) from three generators - grammar-based hostile requests (unknown/odd encodings, malformed timeouts, flags, lying lengths, truncated/undecodable/oversize/bomb payloads), mutations of recorded valid requests (bit flips, truncation, dropped headers, method/version/content-type changes), random bytes, valid requests under a Content-Length unrelated to the body, and requests that must be refused (bad timeout, unknown compression) arriving on a request body that stays open until the handler answers - x 3 protocols x 2 codecs x 4 kinds x 2 handler configurations; oracle: no panic, returns, response well-formed per reference decoder (or bare 405/415/505), user code <= 1x, received messages a prefix of the reference-decoded valid prefix, documented error classes never answered with success; distinct by (generator class, config, kind, outcome class)")
 	run.Assume("handlers use WithReadMaxBytes(1 MiB)")
 	n := run.Pick(1500, 60000)
 	corp := buildCorpus(corpusSpec{protos: svc.Protocols, codecs: svc.Codecs, kinds: svc.Kinds, gzips: []bool{false, true}, counts: []int{1, 2}, scenarios: []string{"ok"}})
@@ -371,6 +371,21 @@ func c07(run *ev.Run) int {
 			}
 			fmt.Fprintf(os.Stderr, "case %s\n", key)
 			c07Case(run, reg, hs[c.kind], c.codec, c.kind, cfg, key, h)
+		}
+	})
+	c07OpenBody(run, corp)
+	// declared-length lies (Content-Length unrelated to the body)
+	declaredLengthHandler(run, "c07", 1<<20, func(key string, hl *svc.HLog, res *wire.Result, panicked any, hung bool, _ uint64, detail map[string]any) {
+		run.Count("requests", 1)
+		switch {
+		case hung:
+			run.Violation(key+"/hang", "ServeHTTP did not return within 20 s", detail)
+		case panicked != nil:
+			run.Violation(key+"/panic", fmt.Sprintf("ServeHTTP panicked: %v", panicked), detail)
+		case hl.Invocations > 1:
+			run.Violation(key+"/invoked-twice", fmt.Sprintf("user code ran %d times for one request", hl.Invocations), detail)
+		case res.Status == 0:
+			run.Violation(key+"/no-response", "ServeHTTP returned without writing a response", detail)
 		}
 	})
 	return run.Finish("requests", "responses.decoded", "received.prefix.checked", "rejections.checked")
@@ -572,5 +587,94 @@ func c07Case(run *ev.Run, reg *svc.Registry, handler *connect.Handler, _ string,
 	run.Eval(cfg + "|" + h.class + "|" + outcome)
 	if h.class[0] == 'g' {
 		run.Sample(map[string]any{"config": cfg, "class": h.class, "header": h.header, "body_len": len(h.body), "outcome": outcome})
+	}
+}
+
+// c07OpenBody: requests the handler must refuse without user code - a malformed
+// timeout, an unsupported compression - arrive on a request body whose sender
+// has not finished (a streaming client that sent its first message and now
+// waits for the answer). The refusal must not wait for the end of that body.
+func c07OpenBody(run *ev.Run, corp []*recorded) {
+	type refusal struct {
+		name string
+		set  func(h http.Header, proto string, stream bool)
+		code uint32
+	}
+	refusals := []refusal{
+		{"bad-timeout", func(h http.Header, proto string, _ bool) {
+			if proto == "connect" {
+				h.Set("Connect-Timeout-Ms", "12x")
+			} else {
+				h.Set("Grpc-Timeout", "12")
+			}
+		}, 3},
+		{"unknown-compression", func(h http.Header, proto string, stream bool) {
+			switch {
+			case proto != "connect":
+				h.Set("Grpc-Encoding", "br")
+			case stream:
+				h.Set("Connect-Content-Encoding", "br")
+			default:
+				h.Set("Content-Encoding", "br")
+			}
+		}, 12},
+	}
+	for _, rec := range corp {
+		if rec.Codec != "proto" || rec.Gzip || len(rec.Sends) != 1 {
+			continue
+		}
+		for _, rf := range refusals {
+			key := fmt.Sprintf("c07/open-body/%s/%s/%s", rec.Proto, rec.Kind, rf.name)
+			if !run.Want(key) {
+				continue
+			}
+			reg := svc.NewRegistry()
+			hs := svc.Handlers(reg, connect.WithReadMaxBytes(c07ReadMax))
+			call := reg.New("ob", drainProgram())
+			hdr := rec.Ex.ReqHeader.Clone()
+			hdr.Set(wire.CallHeader, call.ID)
+			stream := !(rec.Proto == "connect" && rec.Kind == svc.Unary)
+			rf.set(hdr, rec.Proto, stream)
+			body := wire.NewOpenBody(rec.Ex.ReqBody)
+			rw := wire.NewRecorder()
+			req := wire.ServerRequest(context.Background(), "POST", rec.Kind.Path(), hdr, body, 2)
+			var panicked any
+			done := make(chan struct{})
+			go func() {
+				defer close(done)
+				defer func() { panicked = recover() }()
+				hs[rec.Kind].ServeHTTP(rw, req)
+			}()
+			answered := true
+			select {
+			case <-done:
+			case <-time.After(5 * time.Second):
+				// suspicion; confirm with the same grace the other watchdogs use
+				if confirmHang(done) {
+					answered = false
+				}
+			}
+			stillOpen := !body.Released()
+			body.Release()
+			<-done
+			run.Count("requests", 1)
+			run.Count("open_body.refusals", 1)
+			run.Eval(fmt.Sprintf("open-body|%s|%s|%s", rec.Proto, rec.Kind, rf.name))
+			detail := map[string]any{"protocol": rec.Proto, "kind": rec.Kind.String(), "refusal": rf.name, "body_still_open_when_answered": stillOpen}
+			if panicked != nil {
+				run.Violation(key+"/panic", fmt.Sprintf("ServeHTTP panicked: %v", panicked), detail)
+				continue
+			}
+			if !answered {
+				run.Violation(key+"/waits-for-body", "the handler did not answer a request it has to refuse ("+rf.name+") while the sender's request body was still open; it only returned once the body was ended", detail)
+				continue
+			}
+			res := rw.Finish()
+			d := refcodec.DecodeResponse(rec.Proto, stream, res.Status, res.Header, res.Body, res.Trailer, svc.RefAlgos())
+			if d.Err == nil || d.Err.Code != rf.code || call.Log.Invocations != 0 {
+				detail["status"], detail["decoded_error"] = res.Status, fmt.Sprint(d.Err)
+				run.Violation(key+"/not-refused", "request was not refused with the documented code without running user code", detail)
+			}
+		}
 	}
 }
